@@ -67,6 +67,7 @@ def run_one(name):
     finally:
         sh('git -C /repo worktree remove --force %s' % wt)
         shutil.rmtree(wt, ignore_errors=True)
+        shutil.rmtree(os.path.join('/tmp', 'verif-trial-' + os.path.basename(wt)), ignore_errors=True)
     return name, res
 
 
